@@ -11,7 +11,6 @@ Two independent routes are implemented on purpose:
       samples, alleles they carry, branches that separate them and MRCAs.
 """
 import itertools
-import math
 
 import numpy as np
 
@@ -435,13 +434,6 @@ class Ref:
         den = pa * (1 - pa) * pb * (1 - pb)
         return D, den
 
-    # ------------------------------------------------------------------ clades (rf / kc)
-    def tree_at(self, x):
-        for t in self.trees:
-            if t.left <= x < t.right:
-                return t
-        raise ValueError(x)
-
 
 # ---------------------------------------------------------------------- documented summary functions
 # (docs/stats.md "Summary functions"); n = sample set sizes, x = counts below the node / carrying
@@ -527,12 +519,6 @@ SUMMARY = {
     "divergence": (2, sf_divergence), "Y2": (2, sf_Y2), "f2": (2, sf_f2),
     "Y3": (3, sf_Y3), "f3": (3, sf_f3), "f4": (4, sf_f4),
 }
-
-
-def fold_index(idx, dims):
-    """Documented 1-D fold: allele count j and n - j share entry min(j, n - j)."""
-    n = dims[0] - 1
-    return (min(idx[0], n - idx[0]),)
 
 
 def tajd_constants(n):
